@@ -1,6 +1,8 @@
 """C06 - consistent observations reproduce the network they were derived from."""
 import copy
 
+import math
+
 import numpy as np
 from hypothesis import strategies as st
 
@@ -24,7 +26,7 @@ ASSUMPTIONS = ["numpy confirms full column rank of the truth Jacobian before a c
                "tolerances: 1e-5 m on coordinates (20*delta^2/d_min second-order allowance for the 0.5 m class), 0.01 mm / 0.1 cc on residuals"]
 REQUIRED_CLASSES = ["approx=exact", "approx=small", "approx=big", "approx=omit", "dims=2d", "dims=3d", "dims=1d", "with_dh"]
 
-XY_OMIT_OK = {"polar", "intersection", "trilateration", "traverse", "azdist", "coords"}
+XY_OMIT_OK = {"polar", "intersection", "trilateration", "traverse", "azdist", "coords", "polar3d"}
 
 
 @st.composite
@@ -51,6 +53,18 @@ def case(draw):
         if mode == "omit":
             if p["xy"] == "adj" and draw(st.booleans()):
                 ok = rxy in XY_OMIT_OK
+                if rxy == "trilateration":
+                    # distances to collinear stations leave the mirror image: no unique approximate position
+                    P0 = nm.pmap(net)
+                    sts = [cl["from"] if o["to"] == p["id"] else o["to"] for cl in net["clusters"] if cl["k"] == "obs"
+                           for o in cl["obs"] if o["t"] == "distance" and (o["to"] == p["id"] or cl["from"] == p["id"])]
+                    sts = [q for q in dict.fromkeys(sts) if q != p["id"]][:3]
+                    ok = False
+                    if len(sts) == 3:
+                        (x1, y1), (x2, y2), (x3, y3) = [(P0[q]["E"], P0[q]["N"]) for q in sts]
+                        area = abs((x2 - x1) * (y3 - y1) - (x3 - x1) * (y2 - y1))
+                        size = max(math.hypot(x2 - x1, y2 - y1), math.hypot(x3 - x1, y3 - y1), math.hypot(x3 - x2, y3 - y2))
+                        ok = area > 0.1 * size * size
                 if rxy == "vector":
                     ok = any(v["to"] == p["id"] and v["from"] in given_ids
                              for cl in net["clusters"] if cl["k"] == "vectors" for v in cl["obs"])
@@ -63,6 +77,10 @@ def case(draw):
                              for cl in net["clusters"] if cl["k"] == "hdiff" for h in cl["obs"])
                 if rz == "coords" or (rxy == "coords" and rz is None):
                     ok = True
+                if rz == "trig" or rxy == "polar3d":
+                    # height from a zenith angle observed at a point of known height (AcordZderived)
+                    ok = ok or any(o["t"] == "z-angle" and o["to"] == p["id"] and cl["from"] in given_ids
+                                   for cl in net["clusters"] if cl["k"] == "obs" for o in cl["obs"])
                 if rxy == "vector" or rz == "vector":
                     ok = ok or any(v["to"] == p["id"] and v["from"] in given_ids
                                    for cl in net["clusters"] if cl["k"] == "vectors" for v in cl["obs"])
@@ -114,7 +132,9 @@ def check_result(tag, net, res, mode, stats):
         if cl["k"] != "obs":
             continue
         for o in cl["obs"]:
-            if o["t"] == "z-angle" and (o.get("from_dh") or o.get("to_dh")) and delta > 0:
+            omitted_any = any((q["xy"] == "adj" and not q["give_xy"]) or (q["z"] == "adj" and not q["give_z"]) for q in net["points"])
+            # (computed approximate coordinates are as inexact as perturbed ones)
+            if o["t"] == "z-angle" and (o.get("from_dh") or o.get("to_dh")) and (delta > 0 or omitted_any):
                 sight = nm.hdist(P[o.get("from", cl["from"])], P[o["to"]])
                 tolc = max(tolc, 2.0 * 1.571e-7 * sight)
     for p in net["points"]:
